@@ -4,6 +4,7 @@ CONSTANTS
   LinkStyle = "fixed"
   MaxTok = 3
   Part = "both"
+  ListStyle = "versioned"
   Chains = FALSE
 INVARIANT Emit
 CHECK_DEADLOCK FALSE
